@@ -45,3 +45,24 @@ Definition kept (p : plan) : list (content * content) :=
 (* the same plan with every squash / fixup turned into a pick *)
 Definition as_picks (p : plan) : plan :=
   map (fun st => (if is_fold_action (fst st) then Pick else fst st, snd st)) p.
+
+(* ---------------- round 2 ---------------- *)
+(* d is the merge of b o t with every conflicting key taken whole from side h *)
+Definition is_resolved (h : side) (b o t d : content) : Prop :=
+  forall k, get k d = match merge_row (get k b) (get k o) (get k t) with
+                      | MOk v => v
+                      | MConflict => pick_side h (get k o) (get k t)
+                      end.
+Definition is_resolved_b (h : side) (b o t d : content) : bool :=
+  forallb (fun k => orow_eqb (get k d) (resolve_at h b o t k)) (keys d ++ keys b ++ keys o ++ keys t).
+
+(* one cherry-pick of the fold under a conflict policy: None = the fold stops *)
+Definition pick2 (m : onconf) (h p c : content) : option content :=
+  if clean p h c then Some (cherry_pick_data h p c)
+  else match m with Resolve s => Some (resolved s p h c) | _ => None end.
+
+Fixpoint fold_picks2 (m : onconf) (h : content) (l : list (content * content)) : option content :=
+  match l with
+  | [] => Some h
+  | (p, c) :: l' => match pick2 m h p c with Some d => fold_picks2 m d l' | None => None end
+  end.
